@@ -60,14 +60,16 @@ type c03Case struct {
 	Shuf   int64      `json:"shuffle_seed"`
 }
 
-var c03NumFns = []string{"count", "sum", "avg", "min", "max", "stddev", "stddevs", "var", "vars", "median", "percentile"}
+// pspread is a compound item with two calls of one parameterised aggregate that differ only in the
+// parameter: percentile(x, 1) - percentile(x, 0), i.e. max - min (both percentiles are unambiguous).
+var c03NumFns = []string{"count", "sum", "avg", "min", "max", "stddev", "stddevs", "var", "vars", "median", "percentile", "pspread"}
 var c03PosFns = []string{"first_value", "last_value", "nth_value", "collect"}
 var c03AllFns = append(append(append([]string{}, c03NumFns...), c03PosFns...), "deduplicate", "merge_agg")
 
 // order-insensitive functions (statement: "order-insensitive aggregates are invariant under
 // permutation of the batch")
 var c03OrderFree = map[string]bool{"count": true, "sum": true, "avg": true, "min": true, "max": true, "stddev": true,
-	"stddevs": true, "var": true, "vars": true, "median": true, "percentile": true}
+	"stddevs": true, "var": true, "vars": true, "median": true, "percentile": true, "pspread": true}
 
 var c03Exprs = []string{"v*2", "v+w", "v-w", "v*w", "v+1.5", "o.x+v", "o.x*2"}
 
@@ -125,6 +127,8 @@ func c03GenItem(fn string, n int, r *rand.Rand) *c03Item {
 	case "percentile":
 		it.P = pick(r, []float64{0, 0.25, 0.5, 0.5, 0.9, 0.95, 1})
 		it.SQL = fmt.Sprintf("percentile(%s, %s)", it.Arg, strconv.FormatFloat(it.P, 'g', -1, 64))
+	case "pspread":
+		it.SQL = fmt.Sprintf("percentile(%s, 1) - percentile(%s, 0)", it.Arg, it.Arg)
 	case "nth_value":
 		it.Nth = 1 + r.Intn(n+1)
 		it.SQL = fmt.Sprintf("nth_value(%s, %d)", it.Arg, it.Nth)
@@ -148,13 +152,15 @@ func c03Num(r *rand.Rand, regime string) (any, bool) {
 		nullP = 0
 	case "nullheavy":
 		nullP = 2
-	case "ints", "large":
+	case "ints", "large", "offset":
 		nullP = 8
 	}
 	if nullP > 0 && r.Intn(nullP) == 0 {
 		return nil, r.Intn(2) == 0
 	}
 	switch regime {
+	case "offset": // a large common offset with a small spread (epoch-like readings)
+		return 1.7e9 + float64(r.Intn(9))*0.5, true
 	case "ints":
 		return r.Intn(21) - 10, true
 	case "large":
@@ -193,7 +199,7 @@ func genC03(ref core.CaseRef, r *rand.Rand) *c03Case {
 	if ncols > 0 {
 		c.Groups = 1 + r.Intn(3)
 	}
-	c.Regime = pick(r, []string{"mixed", "mixed", "mixed", "dense", "nullheavy", "allnull", "allnull", "ints", "large"})
+	c.Regime = pick(r, []string{"mixed", "mixed", "mixed", "dense", "nullheavy", "allnull", "allnull", "ints", "large", "offset"})
 	c.Mode = pick(r, []string{"all", "all", "single", "single", "few"})
 	// group key tuples (plain keys: grouping itself is C04's subject)
 	type key struct {
